@@ -430,3 +430,79 @@ def c11(run):
         p = [unhx(x) for x in a.split(" ")[1:5]]
         if "".join(p) != b or (p[3] == "") != (len(b) == 8):
             run.violation("bic parts", [b], a, "parts concatenate to the compact form", "concatenation", op=f)
+
+
+# --------------------------------------------------------------------------- C06
+@prop("C06",
+      rule="per country with a national algorithm (22): structure-conforming BBANs whose check digits are "
+           "computed by the harness' own reference (accept side), the same with the check field changed, and "
+           "random ones, through IBAN(validate_bban=True), validate(True) and bban.validate_national_checksum(); "
+           "every other country: valid IBANs with national validation on; non-trivial = distinct BBAN with "
+           "valid IBAN check digits",
+      note="published-rule equivalence proved in Lean for the ISO 7064 families (10 countries); for the other "
+           "12 the published rule is the independent reference tools/natref.py (differential check, not proof)")
+def c06(run):
+    import natref
+    from realops import registry_lines
+    S = Streams(run.seed * 1000 + 6)
+    r = S.r
+    ops, meta = [], []
+    per = run.scale(40, 2000)
+    for cc in sorted(natref.NATIONAL):
+        ops += registry_lines(S.banks_of(cc))
+        meta += [None] * (len(ops) - len(meta))
+        for j in range(per):
+            b = S.bban(cc).upper() if j % 3 else S.bban_with_bank(cc).upper()
+            if j % 2 == 0:
+                v = natref.make_valid(cc, b, r)
+                b = v or b
+            if j % 5 == 4:   # break exactly the check field
+                s_, e_ = natref.CHECK_FIELD.get(cc, (len(b) - 1, len(b)))
+                ch = b[s_:e_]
+                alt = "".join(r.choice([x for x in (UPPER if ch[0] in UPPER else DIGITS) if x != c]) for c in ch)
+                b = b[:s_] + alt + b[e_:]
+            want = natref.NATIONAL[cc](b)
+            i = cc + iban_check_digits(cc, b) + b
+            for f in (["iban.new", hx(i), "F", "T"], ["iban.validate", hx(i), "T"], ["bban.national", hx(cc), hx(b)],
+                      ["iban.new", hx(i), "F", "F"]):
+                ops.append(f)
+                meta.append((cc, b, want))
+    others = [cc for cc in S.countries if cc not in natref.NATIONAL and cc != "DE"]
+    ops.append(["reg.reset"])
+    meta.append(None)
+    for cc in others:
+        for _ in range(run.scale(3, 60)):
+            i = S.iban(cc)
+            ops.append(["iban.new", hx(i), "F", "T"])
+            meta.append((cc, i[4:], True))
+    reals, _ = run.correspond("national", ops)
+    spec_ops, spec_meta = [], []
+    for f, m, a in zip(ops, meta, reals):
+        if m is None:
+            continue
+        cc, b, want = m
+        if f[0] == "iban.new" and f[3] == "F":
+            if not a.startswith("ok "):
+                run.violation("IBAN(text)", [unhx(f[1])], a, "accepted (harness-built valid IBAN)",
+                              "monotonicity base case", op=f)
+            continue
+        exp = "ok T" if f[0] != "iban.new" else "ok " + f[1]
+        if want:
+            ok = a == (exp if f[0] != "iban.new" else "ok " + hx(common.clean(unhx(f[1]))))
+        else:
+            ok = a in ("err InvalidBBANChecksum", "err InvalidAccountCode")
+        if not ok:
+            run.violation(f[0], [cc, b], a, "accepted/True" if want else "InvalidBBANChecksum",
+                          "implementation vs independent reference of the published national rule", op=f,
+                          expected_line=exp if want else "err InvalidBBANChecksum")
+        if f[0] == "bban.national":
+            spec_ops.append(["spec.national", hx(cc), hx(b)])
+            spec_meta.append((f, cc, b, a))
+    out = spec_lines(spec_ops)
+    for (f, cc, b, a), o in zip(spec_meta, out):
+        if o == "none":
+            continue
+        run.count(1, tag="lean spec national " + cc)
+        if (o == "ok T") != (a == "ok T"):
+            run.violation("bban.validate_national_checksum()", [cc, b], a, o, "implementation vs Lean Spec.National",
+                          op=f)
